@@ -161,7 +161,14 @@ pub fn run(cfg: &RunCfg, stats: &mut Stats, exhaustive: &mut bool, extra: &mut V
             Outcome::Pass => run_call_sites(cfg, stats),
             other => other,
         },
-        "C19" => run_call_sites(cfg, stats),
+        "C19" => match macro_paths(&cfg.id, stats) {
+            Ok(()) => run_call_sites(cfg, stats),
+            Err(f) => Outcome::Violation(Violation { replay: json!({"property": cfg.id, "kind": "macro_paths", "clause": f.clause, "detail": f.detail}), fail: f }),
+        },
+        "C02" | "C03" | "C08" | "C12" | "C13" | "C14" => match macro_paths(&cfg.id, stats) {
+            Ok(()) => Outcome::Pass,
+            Err(f) => Outcome::Violation(Violation { replay: json!({"property": cfg.id, "kind": "macro_paths", "clause": f.clause, "detail": f.detail}), fail: f }),
+        },
         "C16" => run_c16(cfg, stats, exhaustive, extra),
         "C17" => run_c17(cfg, stats, exhaustive, extra),
         "C18" => crate::conc::run_c18(cfg, stats, extra),
@@ -222,6 +229,7 @@ pub fn replay(id: &str, v: &Value) -> Result<Option<Fail>, String> {
                 _ => Err("bad start".into()),
             }
         }
+        (_, "macro_paths") => Ok(macro_paths(id, &mut st).err()),
         (_, "call_site") => {
             let start = crate::drive::start_from_json(&v["start"])?;
             let actions: Vec<arimaa_engine_step::Action> = v["actions"].as_array().ok_or("actions")?.iter().filter_map(|x| x.as_str()).map(crate::drive::parse_action_text).collect::<Result<_, _>>()?;
@@ -722,6 +730,83 @@ fn run_call_sites(cfg: &RunCfg, stats: &mut Stats) -> Outcome {
     }
     stats.merge(pref);
     out
+}
+
+// =====================================================================================
+// States reached through the crate's own `take_actions!` / `board!` macros (literal action lists - the
+// way the README, the doc tests and most client test code reach positions). The macros take tokens, so
+// these paths are fixed; each end state and every intermediate one is observed with the property's
+// observer against the model, exactly like a state reached by `take_action`.
+// =====================================================================================
+
+pub fn macro_paths(id: &str, st: &mut Stats) -> Check {
+    use arimaa_engine_step::{board, take_actions};
+    let mk = match registry::observer_for(id) {
+        Some(m) => m,
+        None => return Ok(()),
+    };
+    const OPENING: &str = "2g\n +-----------------+\n8| r r r r r r r r |\n7| h d c e m c d h |\n6|     x     x     |\n5|                 |\n4|                 |\n3|     x     x     |\n2| H D C M E C D H |\n1| R R R R R R R R |\n +-----------------+\n   a b c d e f g h";
+    const SKIRMISH: &str = "7s\n +-----------------+\n8|                 |\n7|   r             |\n6|     x     x     |\n5|       r d       |\n4|       E C       |\n3|     x     x     |\n2|   R             |\n1|                 |\n +-----------------+\n   a b c d e f g h";
+    // (start text, action texts, state reached with the macro from that start)
+    let opening = || guard(|| board!("2g\n +-----------------+\n8| r r r r r r r r |\n7| h d c e m c d h |\n6|     x     x     |\n5|                 |\n4|                 |\n3|     x     x     |\n2| H D C M E C D H |\n1| R R R R R R R R |\n +-----------------+\n   a b c d e f g h"));
+    let skirmish = || guard(|| board!("7s\n +-----------------+\n8|                 |\n7|   r             |\n6|     x     x     |\n5|       r d       |\n4|       E C       |\n3|     x     x     |\n2|   R             |\n1|                 |\n +-----------------+\n   a b c d e f g h"));
+    let mut cases: Vec<(&str, Vec<&str>, Result<GameState, String>)> = vec![];
+    macro_rules! path {
+        ($text:expr, $start:expr, $($a:tt),*) => {
+            cases.push(($text, vec![$(stringify!($a)),*], $start().and_then(|s| guard(|| take_actions!(s => $($a),*)))));
+        };
+    }
+    path!(OPENING, opening, a2n);
+    path!(OPENING, opening, a2n, a3n);
+    path!(OPENING, opening, a2n, h2n, d2n);
+    path!(OPENING, opening, b2n, b3e, c3n);
+    path!(OPENING, opening, a2n, h2n, d2n, e2n);
+    path!(OPENING, opening, d2n, d3n, p);
+    path!(OPENING, opening, e2n, e3n, e4n, e5n, a7s, a6s, p);
+    path!(OPENING, opening, h2n, h3w, g3n, p, h7s, h6s, h5s, h4s);
+    path!(SKIRMISH, skirmish, e5e, f5s);
+    path!(SKIRMISH, skirmish, e4s, e5s);
+    path!(SKIRMISH, skirmish, e4s, e5s, b7s);
+    path!(SKIRMISH, skirmish, b7s, p, d5n, d4n);
+    path!(SKIRMISH, skirmish, b7s, p, d4w, d5s);
+    path!(SKIRMISH, skirmish, b7s, p, d4w, d5s, b2n);
+    for (text, actions, reached) in cases {
+        let macro_state = reached.map_err(|p| Fail::new(&format!("{}:panic", id), format!("take_actions!/board! panicked on the path {}: {}", actions.join(" "), p)))?;
+        // the model along the same path (and the engine through plain take_action, for the start)
+        let start_eng = match guard(|| text.parse::<GameState>()).ok().and_then(|r| r.ok()) {
+            Some(x) => x,
+            None => continue, // C15's business
+        };
+        let board = match read_board_lenient(start_eng.piece_board()) {
+            Ok(b) => b,
+            Err(_) => continue,
+        };
+        let mut mo = Model::from_position(board, start_eng.is_p1_turn_to_move(), start_eng.move_number());
+        let mut legal = true;
+        for a in actions.iter() {
+            let act = match crate::drive::parse_action_text(a) {
+                Ok(x) => x,
+                Err(_) => {
+                    legal = false;
+                    break;
+                }
+            };
+            if !mo.offered().contains(&to_maction(&act)) || mo.apply(to_maction(&act)).is_err() {
+                legal = false; // a path of this list that is not legal play is the harness's mistake: skipped, counted
+                break;
+            }
+        }
+        if !legal {
+            st.bump("macro_paths_skipped_as_not_legal");
+            continue;
+        }
+        st.eval();
+        let mut obs = mk();
+        obs.on_state(&crate::drive::View::new(&macro_state, &mo, true), st).map_err(|f| Fail::new(&f.clause, format!("(state reached with take_actions![.. => {}]) {}", actions.join(", "), f.detail)))?;
+        st.nontrivial(fp_combine(mo.fingerprint(), 0x3ac));
+    }
+    st.bump("states_reached_through_the_macros");
+    Ok(())
 }
 
 // =====================================================================================
